@@ -315,6 +315,20 @@ def judgeC10 (o : Obs) : Verdict :=
     let dup := received.eraseDups.length != received.length
     let order := received != accepted.take received.length
     let remaining := o.queues.getD q.toNat 0
+    -- StreamClosed is only raised to a receiver once every accepted item has been received
+    let early := (idx o).flatMap (fun p =>
+      if (p.1.tag == "caught" && arg p.1 0 == 4) || (p.1.tag == "tfin" && arg p.1 0 == 3 && arg p.1 1 == 4) then
+        match ((ofLabel o p.1.label).filter (fun x => x.2 < p.2)).getLast? with
+        | some (r, ri) =>
+          if r.tag == "getreq" && arg r 0 == q then
+            let acc := (idx o).filter (fun x => x.2 < p.2 && x.1.tag == "putreq" && arg x.1 0 == q && !rejected.contains (arg x.1 1))
+            let rec_ := (idx o).filter (fun x => x.2 < p.2 && x.1.tag == "got" && accepted.contains (arg x.1 0))
+            let _ := ri
+            fail (acc.length > rec_.length) s!"queue {q}: receiver {p.1.label} got StreamClosed at {p.1.time} while {acc.length - rec_.length} accepted item(s) were still buffered"
+          else []
+        | none => []
+      else [])
+    early ++
     fail dup s!"queue {q}: an item was received twice: {received}" ++
     fail order s!"queue {q}: items received {received} are not a prefix of the items put {accepted}" ++
     fail (o.crash == [] && (received.length : Int) + remaining != accepted.length)
@@ -338,6 +352,12 @@ def judgeC11 (o : Obs) : Verdict :=
       let expected := puts.map (·.1)
       let ended := (idx o).any (fun q => q.2 == stop && q.1.tag == "cend")
       let putsBeforeEnd := (puts.filter (fun x => x.2 < stop)).map (·.1)
+      -- a single `await channel` that ends with StreamClosed although a message arrived while it waited
+      let closedEarly := match (ofLabel o e.label).find? (fun q => q.2 > p.2) with
+        | some (n, ni) => arg e 1 == 0 && ((n.tag == "caught" && arg n 0 == 4) || (n.tag == "tfin" && arg n 0 == 3 && arg n 1 == 4)) &&
+            puts.any (fun x => x.2 < ni)
+        | none => false
+      fail closedEarly s!"channel {c}: `await channel` of {e.label} raised StreamClosed although a message was put while it waited" ++
       fail (got != expected.take got.length) s!"channel {c}: consumer {e.label} got {got}, messages put after it subscribed: {expected}" ++
       fail (arg e 1 == 1 && ended && got != putsBeforeEnd) s!"channel {c}: consumer {e.label} ended after close with {got} but {putsBeforeEnd} were put"
     else [])
